@@ -108,6 +108,21 @@ pub fn vector(class: ValueClass, vseed: u32, dims: usize) -> Vec<f32> {
                 _ => (m.unit() * 2.0 - 1.0) as f32,
             })
             .collect(),
+        ValueClass::FarCluster | ValueClass::FarClusterMixed => {
+            let pct = if class == ValueClass::FarCluster { 12 } else { 60 }; // per mille
+            let outlier = m.below(1000) < pct;
+            if outlier {
+                let sign = if class == ValueClass::FarCluster { -1.0 } else { 1.0 };
+                (0..dims)
+                    .map(|i| {
+                        let dir = if class == ValueClass::FarCluster { 1.0 } else { (m.unit() * 2.0 - 1.0) as f32 };
+                        sign * dir * 900.0 * (1.0 + 0.1 * (i % 3) as f32)
+                    })
+                    .collect()
+            } else {
+                (0..dims).map(|i| 1000.0 * (1.0 + 0.1 * (i % 3) as f32) + ((m.unit() - 0.5) * 0.5) as f32).collect()
+            }
+        }
         ValueClass::NonFinite => {
             let all = m.below(5) == 0;
             (0..dims)
@@ -145,6 +160,8 @@ pub fn class_is_ordinary(class: ValueClass) -> bool {
             | ValueClass::Sparse
             | ValueClass::TwoValues
             | ValueClass::Zeros
+            | ValueClass::FarCluster
+            | ValueClass::FarClusterMixed
     )
 }
 
